@@ -22,6 +22,11 @@ MUTATIONS = [
     ("C07", "block-drops-nonempty", "ir/_peephole.py", "        if isinstance(statement, Block) and statement.is_empty():", "        if isinstance(statement, Block):", 1),
     ("C07", "multiply-one-wrong-side", "ir/_peephole.py", "    elif right == IntegerLiteral(1) or right == FloatLiteral(1.0):\n        return left", "    elif right == IntegerLiteral(1) or right == FloatLiteral(1.0):\n        return right", 1),
     ("C07", "max-swapped-to-min", "ir/_peephole.py", "    # Use replace so the class is retained\n    return replace(self, left=left, right=right)\n\n\n@peephole_expression.register(BooleanToInteger)", "    return Min(left, right)\n\n\n@peephole_expression.register(BooleanToInteger)", 1),
+    ("C09", "items-ordering-not-inverse", "tensor.py", "prefix[mode_ordering.index(i)]", "prefix[mode_ordering[i]]", 1),
+    ("C09", "sorted-removed", "tensor.py", "            idx = sorted(node.keys())", "            idx = list(node.keys())", 1),
+    ("C09", "duplicate-overwrites", "tensor.py", "            node[key] = node.get(key, 0.0) + payload", "            node[key] = payload", 1),
+    ("C09", "from_aos-reversed-ordering", "tensor.py", "            tuple(coordinate[i] for i in format.ordering) for coordinate in coordinates", "            tuple(coordinate[i] for i in reversed(format.ordering)) for coordinate in coordinates", 1),
+    ("C09", "pickle-drops-ordering", "tensor.py", '            "mode_ordering": self.format.ordering,', '            "mode_ordering": tuple(range(self.order)),', 1),
     ("C07", "harmless-rename-locals", "ir/_peephole.py", "    condition = peephole_expression(self.condition)\n    body = peephole_statement(self.body)\n\n    if condition == BooleanLiteral(False):\n        return Block([])\n    elif isinstance(self.body, Block) and self.body.is_empty():\n        return Block([])\n    else:\n        return Loop(condition, body)",
      "    new_body = peephole_statement(self.body)\n    cond = peephole_expression(self.condition)\n\n    if isinstance(self.body, Block) and self.body.is_empty():\n        return Block([])\n    if cond == BooleanLiteral(False):\n        return Block([])\n    return Loop(cond, new_body)", 0),
 ]
